@@ -453,6 +453,34 @@ static void c03_check(const codec_t *c, input_t in, uint64_t g) {
     if (want_sample()) sample("{\"codec\":\"%s\",\"n\":%zu,\"advertised\":%zu,\"written\":%zu,\"sizing\":\"%s\"}", c->name, n, N, ret, c->boundname);
     STAT_INC("c03_encodes");
     gbuf_free(&gb);
+    if (!strcmp(c->name, "dict.withdict") && n >= 2 && n < (1u << 20)) {
+        /* the refusal path: the shared dictionary lacks one value of the array (at the first, a middle or the last
+         * position); the destination still has exactly the advertised size */
+        varintDict *dc = varintDictCreate();
+        varintDictBuild(dc, in.a, n);
+        size_t N2 = varintDictEncodedSizeWithDict(dc, n);
+        uint64_t missing = in.a[0] + 1;
+        for (int tries = 0; tries < 64 && varintDictFind(dc, missing) >= 0; tries++) missing = missing * 6364136223846793005ULL + 1442695040888963407ULL;
+        if (varintDictFind(dc, missing) < 0) {
+            size_t pos = (g % 3) == 0 ? 0 : (g % 3) == 1 ? n - 1 : 1 + (size_t)(g / 3) % (n - 1);
+            uint64_t *b = malloc(n * 8);
+            memcpy(b, in.a, n * 8);
+            b[pos] = missing;
+            gbuf_t gb2;
+            gbuf_alloc(&gb2, N2, 4096, (uint8_t)(g * 11 + 3));
+            g_ctx = "varintDictEncodeWithDict";
+            snprintf(g_sub, sizeof g_sub, "dict.withdict refusal n=%zu advertised=%zu unknown value at %zu", n, N2, pos);
+            size_t r2 = varintDictEncodeWithDict(gb2.p, dc, b, n);
+            g_sub[0] = 0;
+            long dmg2 = gbuf_check(&gb2);
+            if (dmg2 != -1) viol(KEY(key, c, "write-past-advertised-size"), "refused encode (value at index %zu not in the dictionary) n=%zu advertised %zu first damaged offset %ld returned %zu", pos, n, N2, dmg2, r2);
+            if (r2 > N2) viol(KEY(key, c, "returned-length-exceeds-advertised-size"), "refused encode n=%zu advertised %zu returned %zu", n, N2, r2);
+            gbuf_free(&gb2);
+            free(b);
+            STAT_INC("c03_dictionary_refusals");
+        }
+        varintDictFree(dc);
+    }
     free(in.base);
 }
 
